@@ -809,6 +809,19 @@ def try_into(ip, st, ci):
         return ("symres", ("try_usize", v[1]))
     if v[0] == "bytes" and ip.is_bytes_ty(cr, okty):
         return venum("core::result::Result", 0, "Ok", [v])
+    if v[0] == "iobuf" and v[3] == ONE and okt["k"] == "adt" and okt["s"].startswith("cipher::InOut<") and "Array<u8" in okt["s"]:
+        # InOutBuf<u8> -> InOut<Array<u8, N>>: Ok iff the buffer is exactly one array long
+        inner = [a["ty"] for a in okt.get("args", []) if "ty" in a]
+        if inner:
+            want = ip.sizeof(cr, inner[0])
+            have = ip.tlen(st, v[1])
+            out = []
+            for s2, eq in fork_on(st, ("eq", have - want)):
+                if eq:
+                    out.append((s2, venum("core::result::Result", 0, "Ok", [mk_inout(ip.br(v[1], ZERO, have), ip.br(v[2], ZERO, have))])))
+                else:
+                    out.append((s2, venum("core::result::Result", 1, "Err", [("zst", "IntoArrayError")])))
+            return out
     raise Undecided("try_into from %s to %s" % (v[0], okt["s"]))
 
 
@@ -1257,6 +1270,30 @@ def int_abs_diff(ip, st, ci):
     return vint(T.ifn(a[1][1], "abs_diff", a[1], b[1]))
 
 
+@prim("cmp::Ord::cmp", "cmp::PartialOrd::partial_cmp")
+def ord_cmp(ip, st, ci):
+    """three-way comparison of two sizes: one path per outcome."""
+    a, b = ci["args"]
+    for _ in range(3):
+        if a[0] == "ref":
+            a = ip.load(st, a[1])
+        if b[0] == "ref":
+            b = ip.load(st, b[1])
+    if a[0] != "size" or b[0] != "size":
+        raise Undecided("cmp of %s and %s" % (a[0], b[0]))
+    part = ci["fn"]["name"] == "partial_cmp"
+    out = []
+    for s1, lt in fork_on(st, ("ge", b[1] - a[1] - 1)):
+        if lt:
+            out.append((s1, venum("core::cmp::Ordering", 0, "Less", [])))
+            continue
+        for s2, eq in fork_on(s1, ("eq", a[1] - b[1])):
+            out.append((s2, venum("core::cmp::Ordering", 1, "Equal", []) if eq else venum("core::cmp::Ordering", 2, "Greater", [])))
+    if part:
+        out = [(s_, vsome(v_)) for s_, v_ in out]
+    return out
+
+
 @prim("<impl usize>::div_ceil")
 def usize_div_ceil(ip, st, ci):
     a, b = ci["args"]
@@ -1327,6 +1364,8 @@ prim("BlockCipherEncBackend::encrypt_block_inplace", "BlockCipherEncrypt::encryp
 prim("BlockCipherEncBackend::encrypt_par_blocks_inplace")(_cipher_inplace("E", True))
 prim("BlockCipherDecBackend::decrypt_block_inplace", "BlockCipherDecrypt::decrypt_block")(_cipher_inplace("D", False))
 prim("BlockCipherDecBackend::decrypt_par_blocks_inplace")(_cipher_inplace("D", True))
+prim("BlockCipherEncrypt::encrypt_block_inout")(_cipher_inout("E", False))
+prim("BlockCipherDecrypt::decrypt_block_inout")(_cipher_inout("D", False))
 
 
 @prim("BlockCipherEncrypt::encrypt_block_b2b")
@@ -2088,6 +2127,28 @@ def slice_chunks(ip, st, ci):
     for s2, rest in fork_on(st, ("ge", d - 1)):
         if rest:
             out.append((s2, ("iter", "chain", whole, ("iter", "once", vref(ip.br(tg, k * chunk, d))))))
+        else:
+            out.append((s2, whole))
+    return out
+
+
+@prim("core::slice::<impl [T]>::rchunks_mut", "core::slice::<impl [T]>::rchunks")
+def slice_rchunks(ip, st, ci):
+    """rchunks(n): whole chunks from the end followed, when the length is not a multiple, by the
+    shorter rest at the front."""
+    tg = tg_of(ci["args"][0])
+    n = ci["args"][1]
+    esz = ip.sizeof(crate(ci), fn_targs(ci)[0])
+    total = ip.tlen(st, tg)
+    chunk = n[1] * esz
+    ok = st.F.prove_ge(chunk - 1)
+    oblig(st, ci, "nonzero:rchunks", ok, "%r != 0" % (chunk,))
+    k, d = decompose(st, total, chunk)
+    whole = ("iter", "rchunks", tg, total, chunk, k, d)
+    out = []
+    for s2, rest in fork_on(st, ("ge", d - 1)):
+        if rest:
+            out.append((s2, ("iter", "chain", whole, ("iter", "once", vref(ip.br(tg, ZERO, d))))))
         else:
             out.append((s2, whole))
     return out
